@@ -65,7 +65,9 @@ func runC07(c *Ctx) {
 		ok, _ := allOrigins(n.Call.Args[0], isOfferElem)
 		return ok
 	}))
-	isSpecValue := vFieldLoad(acceptSpecT, "Value", nil)
+	isSpecValue := func(v ssa.Value) bool {
+		return vFieldLoad(acceptSpecT, "Value", nil)(v) || vFieldLoadO(acceptSpecT, "Value")(v)
+	}
 	nPrefix := 0
 	for _, ci := range callsIn(f, "strings.HasPrefix") {
 		a := ci.Common().Args
@@ -111,6 +113,15 @@ func runC07(c *Ctx) {
 			nExact++
 		}
 	}
+	nStar := 0
+	for _, in := range instrs(f) {
+		if bo, ok := in.(*ssa.BinOp); ok && bo.Op == token.EQL {
+			if k, isK := constString(bo.Y); isK && k == "*/*" && isSpecValue(bo.X) {
+				nStar++
+			}
+		}
+	}
+	c.obF("R07.6", f, "knows-any-range", nStar == 1, "NegotiateContentType knows the */* range", fmt.Sprintf("%d comparisons", nStar))
 	c.obF("R07.6", f, "exact-range-compares-normalised-offer", nExact == 1, "an exact range matches by equality with the normalised offer", fmt.Sprintf("%d comparisons", nExact))
 
 	// NegotiateContentEncoding
@@ -399,6 +410,7 @@ func negotiateSelection(c *Ctx, r1, r2 string) {
 	}
 	qNonZero := factEqInt(vFieldLoad(acceptSpecT, "Q", nil), 0, false)
 	nSel, nRank := 0, 0
+	ranks := map[string][]int64{}
 	for _, in := range instrs(f) {
 		phi, ok := in.(*ssa.Phi)
 		if !ok {
@@ -421,8 +433,34 @@ func negotiateSelection(c *Ctx, r1, r2 string) {
 				if !ok || w == phi {
 					continue
 				}
-				k, isK := constInt(w.Edges[i])
-				if bt, okb := w.Type().Underlying().(*types.Basic); !isK || !okb || bt.Info()&types.IsInteger == 0 {
+				rec := w.Edges[i]
+				k, isK := constInt(rec)
+				if bt, okb := w.Type().Underlying().(*types.Basic); !okb || bt.Info()&types.IsInteger == 0 {
+					continue
+				}
+				if isK {
+					isVal := func(v ssa.Value) bool {
+						return vFieldLoad(acceptSpecT, "Value", nil)(v) || vFieldLoadO(acceptSpecT, "Value")(v)
+					}
+					star := factEqString(isVal, "*/*", true)
+					wild := factBool(func(v ssa.Value) bool {
+						h := asCall(v)
+						if h == nil || calleeName(&h.Call) != "strings.HasSuffix" || !isVal(h.Call.Args[0]) {
+							return false
+						}
+						sfx, _ := constString(h.Call.Args[1])
+						return sfx == "/*"
+					}, true)
+					switch {
+					case edgeGuarded(pb, phi.Block(), inner[0].Elem, star):
+						ranks["*/*"] = append(ranks["*/*"], k)
+					case edgeGuarded(pb, phi.Block(), inner[0].Elem, wild):
+						ranks["type/*"] = append(ranks["type/*"], k)
+					default:
+						ranks["exact"] = append(ranks["exact"], k)
+					}
+				}
+				if _, selfEdge := rec.(*ssa.Phi); selfEdge {
 					continue
 				}
 				for _, q := range pb.Preds {
@@ -436,26 +474,51 @@ func negotiateSelection(c *Ctx, r1, r2 string) {
 						continue
 					}
 					y, isY := constInt(bo.Y)
-					if bt, okb := bo.X.Type().Underlying().(*types.Basic); !isY || !okb || bt.Info()&types.IsInteger == 0 {
+					if bt, okb := bo.X.Type().Underlying().(*types.Basic); !okb || bt.Info()&types.IsInteger == 0 {
 						continue
 					}
-					var implied int64
+					strict := bo.Op == token.GTR && br || bo.Op == token.LEQ && !br
+					weak := bo.Op == token.GEQ && br || bo.Op == token.LSS && !br
+					if !strict && !weak {
+						continue
+					}
 					switch {
-					case bo.Op == token.GTR && br, bo.Op == token.LEQ && !br:
-						implied = y
-					case bo.Op == token.GEQ && br, bo.Op == token.LSS && !br:
-						implied = y - 1
-					default:
-						continue
+					case isK && isY:
+						implied := y
+						if weak {
+							implied = y - 1
+						}
+						nRank++
+						c.obI(r2, iff, "rank-compared-is-rank-recorded", implied == k, "at equal quality a range displaces the best match only when the best match's specificity rank is strictly worse than the rank this range records for itself (ties go to the more specific range, then to offer order)", fmt.Sprintf("the selection records rank %d but displaces matches of rank > %d", k, implied))
+					case !isK && !isY && bo.Y == rec:
+						// the rank is a computed value (a helper's result): compared and recorded value are the same
+						nRank++
+						c.obI(r2, iff, "rank-compared-is-rank-recorded", strict, "at equal quality a range displaces the best match only when the best match's specificity rank is strictly worse than the rank this range records for itself (ties go to the more specific range, then to offer order)", "matches of EQUAL rank are displaced")
 					}
-					nRank++
-					c.obI(r2, iff, "rank-compared-is-rank-recorded", implied == k, "at equal quality a range displaces the best match only when the best match's specificity rank is strictly worse than the rank this range records for itself (ties go to the more specific range, then to offer order)", fmt.Sprintf("the selection records rank %d but displaces matches of rank > %d", k, implied))
 				}
 			}
 		}
 	}
-	c.obF(r2, f, "rank-comparisons", nRank >= 3, "each of the three range kinds compares the best specificity rank with its own", fmt.Sprintf("%d rank comparisons", nRank))
-	c.obF(r2, f, "selections", nSel >= 3, "the three range kinds (*/*, type/*, exact) can select an offer", fmt.Sprintf("%d selection sites", nSel))
+	if len(ranks) > 0 {
+		okOrd := len(ranks["*/*"]) > 0 && len(ranks["type/*"]) > 0 && len(ranks["exact"]) > 0
+		why := fmt.Sprintf("ranks recorded: %v", ranks)
+		if okOrd {
+			for _, a := range ranks["*/*"] {
+				for _, b := range ranks["type/*"] {
+					for _, e := range ranks["exact"] {
+						if !(a > b && b > e) {
+							okOrd = false
+						}
+					}
+				}
+			}
+		}
+		c.obF(r2, f, "rank-order", okOrd, "the specificity rank recorded for */* is worse than the one for type/*, which is worse than the one for an exact range (at equal quality the more specific range wins)", why)
+	} else {
+		c.info("%s: specificity ranks are computed values (helper results): their order is not decided", r2)
+	}
+	c.obF(r2, f, "rank-comparisons", nRank >= 1, "every selection compares the best specificity rank with its own", fmt.Sprintf("%d rank comparisons", nRank))
+	c.obF(r2, f, "selections", nSel >= 1, "a matching range can select an offer", fmt.Sprintf("%d selection sites", nSel))
 	for _, r := range returnsOf(f) {
 		if _, isPhi := r.Results[0].(*ssa.Phi); isPhi {
 			continue
